@@ -65,9 +65,17 @@ static vj_t *havoc_jwk(int allow_keys)
  * path explode in CBMC); everything else about it is symbolic:
  *   0 not JSON                      1 any top-level type that is not an object
  *   2 a single JWK-shaped object    3 object whose "keys" member is of any non-array type
- *   4/5/6 object whose "keys" member is an array of 0/1/2 elements, each of any type          */
+ *   4/5/6 object whose "keys" member is an array of 0/1/2 elements, each of any type
+ *   7     as 6, but both elements are non-objects (cheap: exercises count and document order)     */
 #ifndef SHAPE
 #define SHAPE 2
+#endif
+#if SHAPE == 7
+#define NELEM 2
+#elif SHAPE >= 4
+#define NELEM (SHAPE - 4)
+#else
+#define NELEM 0
 #endif
 json_t *vf_parse(unsigned call_no, const char *buf, size_t len, size_t flags)
 {
@@ -94,10 +102,16 @@ json_t *vf_parse(unsigned call_no, const char *buf, size_t len, size_t flags)
 		vj_t *a = vj_new(JSON_ARRAY);
 		unsigned i;
 		__CPROVER_assume(a != NULL);
-		for (i = 0; i < SHAPE - 4; i++) {
+		for (i = 0; i < NELEM; i++) {
+#if SHAPE == 7
+			vj_t *e = VJ(vj_havoc_scalar_or_empty());
+			__CPROVER_assume(e->j.type != JSON_OBJECT);
+			vj_attach_member(a, i, e);
+#else
 			vj_attach_member(a, i, nondet_bool() ? havoc_jwk(0) : VJ(vj_havoc_scalar_or_empty()));
+#endif
 		}
-		a->n = SHAPE - 4;
+		a->n = NELEM;
 		vj_attach_member(top, S_KEYS, a);
 	}
 #endif
@@ -343,7 +357,7 @@ static const json_t *doc_element(const json_t *d, unsigned i, unsigned *count)
 #elif SHAPE == 3
 #define CNT 0
 #else
-#define CNT (SHAPE - 4)
+#define CNT NELEM
 #endif
 
 int main(void)
@@ -469,6 +483,9 @@ int main(void)
 				REACH(!it->error && it->kty == JWK_KEY_TYPE_EC, "element imported through the provider");
 #if SHAPE != 2
 				REACH(it->error && el->type != JSON_OBJECT, "non-object element reported");
+#endif
+#if SHAPE == 7
+				REACH(i == 1 && it->error && it->json->type == JSON_INTEGER, "second element (an integer) became the second item");
 #endif
 			}
 		}
